@@ -1,5 +1,6 @@
 SPECIFICATION Spec
 CONSTANTS
+  SubPermitRace = FALSE
   RaceTokenWait = TRUE
   Max = 2
   MaxConnects = 3
